@@ -141,30 +141,70 @@ class Device:
         logix.setup_reset()
         self.saved_max = logix.Logix.MAX_BYTES
         logix.Logix.MAX_BYTES = case["budget"]
-        tags = cpppo.dotdict()
-        shared = {}
-        for t in case["tags"]:
-            cls = getattr(parser, t["type"])
-            dflt = "" if "STRING" in t["type"] else (0.0 if "REAL" in t["type"] else 0)
-            addr = tuple(t["addr"]) if t.get("addr") else None
-            if addr and addr in shared:
-                attr = shared[addr]
-            else:
-                attr = device.Attribute(t["name"], cls, default=(dflt if t["len"] == 1 else [dflt] * t["len"]))
-                if addr:
-                    shared[addr] = attr
-            e = cpppo.dotdict()
-            e.attribute = attr
-            e.path = ({"segment": [{"class": addr[0]}, {"instance": addr[1]}, {"attribute": addr[2]}]}
-                      if addr else None)
-            e.error = 0
-            dict.__setitem__(tags, t["name"], e)
+        if case.get("via_main"):
+            tags = self.tags_via_main(case)
+        else:
+            tags = cpppo.dotdict()
+            shared = {}
+            for t in case["tags"]:
+                cls = getattr(parser, t["type"])
+                dflt = "" if "STRING" in t["type"] else (0.0 if "REAL" in t["type"] else 0)
+                addr = tuple(t["addr"]) if t.get("addr") else None
+                if addr and addr in shared:
+                    attr = shared[addr]
+                else:
+                    attr = device.Attribute(t["name"], cls, default=(dflt if t["len"] == 1 else [dflt] * t["len"]))
+                    if addr:
+                        shared[addr] = attr
+                e = cpppo.dotdict()
+                e.attribute = attr
+                e.path = ({"segment": [{"class": addr[0]}, {"instance": addr[1]}, {"attribute": addr[2]}]}
+                          if addr else None)
+                e.error = 0
+                dict.__setitem__(tags, t["name"], e)
         logix.setup(tags=tags)
         self.router = device.lookup(2, 1)
         # actual addresses, as allocated by the real setup_tag
         self.addrs = {}
         for t in case["tags"]:
             self.addrs[t["name"]] = device.resolve_tag(t["name"])
+
+    def tags_via_main(self, case):
+        """let the simulator's own command line handling (server/enip/main.py) create the tags: `name[@c/i/a]=TYPE[len]`;
+        main() runs on a thread just long enough to parse its arguments, then is told to stop"""
+        import threading
+        import time
+        cpppo = self.cpppo
+        from cpppo.server.enip import main as M
+        argv = ["-a", "localhost:0"]
+        for t in case["tags"]:
+            spec = t["name"]
+            if t.get("addr"):
+                spec += "@%d/%d/%d" % tuple(t["addr"])
+            spec += "=%s" % t["type"] + ("[%d]" % t["len"] if t["len"] != 1 else "")
+            argv.append(spec)
+        ctl = cpppo.dotdict()
+        ctl.control = cpppo.apidict(timeout=0.1)
+        for k, v in (("done", False), ("disable", False), ("latency", 0.01), ("timeout", 0.1)):
+            ctl.control[k] = v
+        if getattr(M, "tags", None):
+            M.tags.clear()
+        th = threading.Thread(target=lambda: M.main(argv=argv, server=ctl), daemon=True)
+        th.start()
+        want = {t["name"] for t in case["tags"]}
+        t0 = time.time()
+        while time.time() - t0 < 5:
+            have = set(dict.keys(M.tags)) if getattr(M, "tags", None) is not None else set()
+            if want <= have or not th.is_alive():
+                break
+            time.sleep(0.002)
+        time.sleep(0.02)
+        tags = cpppo.dotdict()
+        for k, v in dict.items(M.tags):
+            dict.__setitem__(tags, k, v)
+        ctl.control["done"] = True
+        th.join(2)
+        return tags
 
     def close(self):
         self.logix.Logix.MAX_BYTES = self.saved_max
